@@ -100,7 +100,8 @@ pub fn umad_once(gk: GenomeKind, kind: UmadKind, a: f64, d: f64, g: usize, l: us
     mcx::guarded(|| match gk {
         GenomeKind::Vector => {
             let m = mk_umad(kind, a, d, &gen);
-            let parent: Vector<Gene> = (0..l).map(Gene::Old).collect();
+            // (odd lengths: held in a buffer with spare capacity)
+            let parent: Vector<Gene> = if l % 2 == 1 { Vector { genes: spare(&(0..l).map(Gene::Old).collect::<Vec<_>>()) } } else { (0..l).map(Gene::Old).collect() };
             let out = if via_operator { Mutate::new(&m).apply(parent, &mut rng).unwrap() } else { m.mutate(parent, &mut rng).unwrap() };
             (out.genes, gen.serial.get())
         }
@@ -487,6 +488,16 @@ pub enum FlipKind {
     VectorTag,
     Bits,
     VecTagViaMutate,
+    /// the same genomes held in buffers with spare capacity (as they are after an earlier mutation or
+    /// a collect through a non-exact-size iterator): length, not capacity, is the genome's size
+    VecSpare,
+    VectorSpare,
+    BitsSpare,
+}
+fn spare<T: Clone>(v: &[T]) -> Vec<T> {
+    let mut out = Vec::with_capacity(v.len() + 7);
+    out.extend(v.iter().cloned());
+    out
 }
 
 /// flips: returns Some(mask) (true = flipped) or an error description
@@ -513,8 +524,12 @@ pub fn flip_once(fk: FlipKind, one_over_len: bool, rate: f32, l: usize, env: &mu
         (FlipKind::VecTagViaMutate, true) => Mutate::new(WithOneOverLength).apply(parent.clone(), &mut rng).map_err(|e| format!("{e}")).and_then(judge),
         (FlipKind::VectorTag, false) => judge(WithRate::new(rate).mutate(Vector { genes: parent.clone() }, &mut rng).unwrap().genes),
         (FlipKind::VectorTag, true) => WithOneOverLength.mutate(Vector { genes: parent.clone() }, &mut rng).map_err(|e| format!("{e}")).and_then(|v| judge(v.genes)),
-        (FlipKind::Bits, ool) => {
-            let p = Bitstring { bits: parent.iter().map(|b| b.val).collect() };
+        (FlipKind::VecSpare, false) => judge(WithRate::new(rate).mutate(spare(&parent), &mut rng).unwrap()),
+        (FlipKind::VecSpare, true) => WithOneOverLength.mutate(spare(&parent), &mut rng).map_err(|e| format!("{e}")).and_then(judge),
+        (FlipKind::VectorSpare, false) => judge(WithRate::new(rate).mutate(Vector { genes: spare(&parent) }, &mut rng).unwrap().genes),
+        (FlipKind::VectorSpare, true) => WithOneOverLength.mutate(Vector { genes: spare(&parent) }, &mut rng).map_err(|e| format!("{e}")).and_then(|v| judge(v.genes)),
+        (FlipKind::Bits | FlipKind::BitsSpare, ool) => {
+            let p = Bitstring { bits: if fk == FlipKind::BitsSpare { spare(&parent.iter().map(|b| b.val).collect::<Vec<bool>>()) } else { parent.iter().map(|b| b.val).collect() } };
             let out = if ool { WithOneOverLength.mutate(p, &mut rng).map_err(|e| format!("{e}"))? } else { WithRate::new(rate).mutate(p, &mut rng).unwrap() };
             if out.bits.len() != l {
                 return Err(format!("length {} instead of {l}", out.bits.len()));
@@ -583,7 +598,7 @@ pub fn cases(quick: bool) -> Vec<Case> {
     let max_l = if quick { 3 } else { 4 };
     let rates: Vec<(u32, u32)> = if quick { vec![(0, 2), (1, 2), (2, 2)] } else { vec![(0, 4), (1, 4), (2, 4), (3, 4), (4, 4)] };
     let m = if quick { 2 } else { 4 };
-    for fk in [FlipKind::VecTag, FlipKind::VectorTag, FlipKind::Bits, FlipKind::VecTagViaMutate] {
+    for fk in [FlipKind::VecTag, FlipKind::VectorTag, FlipKind::Bits, FlipKind::VecTagViaMutate, FlipKind::VecSpare, FlipKind::VectorSpare, FlipKind::BitsSpare] {
         for l in 0..=max_l + 1 {
             for r in rates.iter().chain([(2u32, 1u32)].iter()) {
                 v.push(Case::Flip(fk, false, *r, l, m));
@@ -677,7 +692,7 @@ pub fn run(run: &mut Run) {
     run.states = cs.len() as u64;
     run.traces_validated = run.evaluations;
     run.distinct_nontrivial = nontrivial;
-    run.rule = "WithRate / WithOneOverLength on Vec<TagBit>, Vector<TagBit>, Bitstring and through Mutate; Umad (new / new_with_empty_rate / new_without_empty) on Vector<Gene>, Plushy (instruction genes, and parents whose even positions are close markers) and Bitstring, through &, by value and through Mutate; all parent lengths 0..L, all lattice rates, all grid word sequences, and (lengths <= 3 for flips, <= 2 for UMAD) all sequences over the grid plus the extreme words 0 and all-ones; plus UMAD on long parents (64..257, thorough 31..300) under every stream with at most 1 (2) non-default words; structural oracle on every leaf (positions preserved, subsequence order, at most one insertion per parent position, provenance of new genes, boundary rates). non-trivial = scenarios with more than one distinct output".into();
+    run.rule = "WithRate / WithOneOverLength on Vec<TagBit>, Vector<TagBit>, Bitstring (each also held in a buffer with spare capacity) and through Mutate; Umad (new / new_with_empty_rate / new_without_empty) on Vector<Gene>, Plushy (instruction genes, and parents whose even positions are close markers) and Bitstring, through &, by value and through Mutate; all parent lengths 0..L, all lattice rates, all grid word sequences, and (lengths <= 3 for flips, <= 2 for UMAD) all sequences over the grid plus the extreme words 0 and all-ones; plus UMAD on long parents (64..257, thorough 31..300) under every stream with at most 1 (2) non-default words; structural oracle on every leaf (positions preserved, subsequence order, at most one insertion per parent position, provenance of new genes, boundary rates). non-trivial = scenarios with more than one distinct output".into();
     run.bound("max_parent_length", json!(if run.quick() { 3 } else { 4 }));
     run.bound("rates", json!(if run.quick() { "{0, 1/2, 1, 2}" } else { "{0, 1/4, 1/2, 3/4, 1, 2}" }));
     run.assumptions = vec!["structure is rate independent: lattice rates reach both outcomes of every coin".into()];
@@ -691,7 +706,7 @@ pub fn replay(v: &Value) -> bool {
     let m = v["m"].as_u64().unwrap_or(2) as u32;
     let c = match v["scenario"].as_str() {
         Some("flip") => {
-            let fk = [FlipKind::VecTag, FlipKind::VectorTag, FlipKind::Bits, FlipKind::VecTagViaMutate]
+            let fk = [FlipKind::VecTag, FlipKind::VectorTag, FlipKind::Bits, FlipKind::VecTagViaMutate, FlipKind::VecSpare, FlipKind::VectorSpare, FlipKind::BitsSpare]
                 .into_iter()
                 .find(|k| Some(format!("{k:?}").as_str()) == v["kind"].as_str())
                 .unwrap_or(FlipKind::VecTag);
